@@ -10,6 +10,15 @@ THEOREMS = [
 ]
 
 
+THM_TAG = [
+    "GE.TagScope.run_node_eq_spec",
+    "GE.TagScope.run_nodes_eq_spec",
+    "GE.TagScope.run_list_eq_spec",
+    "GE.TagScope.balanced",
+    "GE.TagScope.run_main_eq_spec",
+]
+
+
 def py_resolve(t, scopes):
     """independent resolver over the Python tree: data field -> innermost scope of that name"""
     if isinstance(t, tuple):
@@ -33,14 +42,13 @@ def run(chk):
     chk.trusted = ["Lean 4.33 kernel", "axioms ⊆ {propext, Classical.choice, Quot.sound}",
                    "GE/Model/SubExpr.lean tied to iter_sub_expr!/convert_scopes by differential runs through cfg hooks",
                    "reference renderer checklib/tmplgen.py (oracle)", "real runtime under node 22 with a stub backend"]
-    chk.assumptions = ["the push/truncate discipline of the scope stack in Element::init_scopes_and_binding_map_keys is exercised by the render oracle, not modelled in Lean yet",
+    chk.assumptions = ["tag level: run_node_eq_spec (GE/Thm/C05Tag.lean) - the stateful analysis of Element::init_scopes_and_binding_map_keys (push slot-value names, own values, "
+                       "push wx:for names, children, truncate) converts every dynamic value under exactly the script modules and the declarations of its enclosing elements, "
+                       "innermost last, and restores the stack after every element; the model of that analysis is compared with the implementation on every generated and "
+                       "directed template (corr:tag_scopes: converted expression and collected flag of every value, in visiting order). The generation-time scope stack "
+                       "(proc_gen) is exercised by the render oracle only",
                        "slot: value scopes need dynamic-slot components, which the stub backend does not provide: covered by the parser-level stream only"]
-    failed, log = chk.prove("GE.Thm.C05", THEOREMS)
-    for t in failed:
-        chk.violation("proof", f"obligation {t} no longer checks", theorem=t, log=log[-3000:])
-    ok, log = core.lake_build(["gedriver"])
-    if not ok:
-        raise core.BrokenTie("driver-build", log)
+    chk.model_tie([("GE.Thm.C05", THEOREMS), ("GE.Thm.C05Tag", THM_TAG)])
     rng = chk.rng.fork("c05")
     # ---- stream 1: iterator + convert_scopes --------------------------------------------------
     trees = eg.enum_depth2()
@@ -96,6 +104,7 @@ def run(chk):
     for t in directed_templates():
         ts.append(t)
         srcs.append(tg.Printer().template(t))
+    tag_scope_stream(chk, srcs)
     groups = render.compile_templates([tg.group_request(t, s) for t, s in zip(ts, srcs)])
     items, idx = [], []
     for i, (t, g) in enumerate(zip(ts, groups)):
@@ -120,6 +129,130 @@ def run(chk):
                 chk.violation("input", "rendered tree differs from the lexically-resolved reference rendering",
                               template=srcs[i], data=it[2], real=a if a is not None else r, reference=b)
     chk.bump("oracle:render-cases", len(items))
+
+
+# ---------------------------------------------------------------------------------------------------------
+# tag-level scope / binding-map analysis: model (GE/Model/TagScope.lean) vs implementation
+def sx_tokens(s):
+    out, i, n = [], 0, len(s)
+    while i < n:
+        c = s[i]
+        if c in "()":
+            out.append(c); i += 1
+        elif c == '"':
+            j = i + 1
+            while s[j] != '"':
+                j += 2 if s[j] == "\\" else 1
+            out.append(s[i:j + 1]); i = j + 1
+        elif c in " \t\n":
+            i += 1
+        else:
+            j = i
+            while j < n and s[j] not in '() \t\n"':
+                j += 1
+            out.append(s[i:j]); i = j
+    return out
+
+
+def sx_parse(s):
+    toks = sx_tokens(s)
+    pos = [0]
+    def rec():
+        t = toks[pos[0]]; pos[0] += 1
+        if t == "(":
+            l = []
+            while toks[pos[0]] != ")":
+                l.append(rec())
+            pos[0] += 1
+            return l
+        return t
+    return rec()
+
+
+def sx_str(t):
+    return "(" + " ".join(sx_str(x) for x in t) + ")" if isinstance(t, list) else t
+
+
+def is_loc(t):
+    return isinstance(t, list) and len(t) == 4 and all(isinstance(x, str) and x.isdigit() for x in t)
+
+
+def strip_locs(t, src=None):
+    """the located S-expression without its locations; with `src`, scope references become the identifiers they were written as"""
+    if not isinstance(t, list):
+        return t
+    if src is not None and t and t[0] == "scope" and len(t) == 3 and is_loc(t[2]):
+        l = [int(x) for x in t[2]]
+        name = src.slice((l[0], l[1]), (l[2], l[3]))
+        return ["data", json.dumps(name, ensure_ascii=False)]
+    return [strip_locs(x, src) for x in t if not is_loc(x)]
+
+
+def skeleton_sexp(nodes, src, recs):
+    """the model's input for a list of dumped nodes; appends (collected, converted expression) of every dynamic value to `recs`"""
+    def val(v):
+        if v is None:
+            return "none"
+        t = sx_parse(v["conv"])
+        recs.append(("1" if v["bmk"] else "0") + sx_str(strip_locs(t)))
+        return "(val %s %s)" % ("1" if v["flag"] else "0", sx_str(strip_locs(t, src)))
+    def node(n):
+        if n["k"] == "other":
+            return "(other)"
+        if n["k"] == "text":
+            return "(text %s)" % val(n["v"])
+        kind = n["kind"]
+        if kind == "for":
+            kind = "(for %s %s)" % (json.dumps(n["for"][0], ensure_ascii=False), json.dumps(n["for"][1], ensure_ascii=False))
+        vals = " ".join(val(v) for v in n["vals"])
+        # the analysis visits: own values, then the child lists in order
+        ch = " ".join("(nodes %s)" % " ".join(node(c) for c in cl) for cl in n["children"])
+        return "(elem %s (refs %s) (vals %s) (children %s))" % (kind, " ".join(json.dumps(r, ensure_ascii=False) for r in n["refs"]), vals, ch)
+    return " ".join(node(n) for n in nodes)
+
+
+def tag_scope_stream(chk, srcs):
+    from .c16 import Src
+    real = core.run_harness([core.req("tmpl_scopes", s) for s in srcs])
+    if real and real[0] == "bad-op":
+        chk.notes.append("harness has no tmpl_scopes op: tag-level scope correspondence skipped")
+        return
+    reqs, want, meta = [], [], []
+    for s, a in zip(srcs, real):
+        if a in ("none",) or a.startswith("PANIC"):
+            continue
+        d = json.loads(a)
+        src = Src(s)
+        mods = " ".join(json.dumps(m, ensure_ascii=False) for m in d["modules"])
+        for dyn, nodes in [("0", d["nodes"])] + [("1", sub[1]) for sub in d["subs"]]:
+            recs = []
+            try:
+                body = skeleton_sexp(nodes, src, recs)
+            except Exception as e:       # a location that does not lie in the source is C16's subject
+                chk.bump("corr:tag_scopes:skipped-bad-location")
+                continue
+            reqs.append(core.req("tag_scopes", dyn, "(tmpl (modules %s) (nodes %s))" % (mods, body)))
+            want.append("\x01".join(recs))
+            meta.append(s)
+    model = core.run_driver(reqs)
+    if not core.MODEL_OK:
+        return
+    nd = 0
+    adv = {}
+    for rq, w, m, s in zip(reqs, want, model, meta):
+        if m and "\t" in m and rq.split("\t")[1] == "0":
+            a_ = core.unesc(m.split("\t")[1])
+            adv[s] = sorted(a_.split("\x01")) if a_ else []
+        got = core.unesc(m.split("\t")[0]) if m and "\t" in m else (core.unesc(m) if m else m)
+        chk.case(("tag-scopes", rq), nontrivial="scope" in w)
+        if got != w:
+            nd += 1
+            if nd <= 4:
+                chk.violation("correspondence", "scope / binding-map analysis: model and implementation leave different conversions / collected flags in the values",
+                              stream="tag_scopes", template=s[:1500], real=w[:1500], model=(got or "")[:1500])
+    chk.bump("corr:tag_scopes:cases", len(reqs))
+    chk.bump("corr:tag_scopes:diffs", nd)
+    return adv
 
 
 def directed_templates():
